@@ -95,6 +95,7 @@ type gscope struct {
 	isEval   bool
 	paramSet map[string]bool
 	patParam map[string]bool // parameter names bound by a pattern or rest element
+	selfName string          // name of the function expression when its parameter list is not simple
 }
 
 type Gen struct {
@@ -221,6 +222,10 @@ func (g *Gen) canVar(name string) bool {
 		}
 		if s.isFunc {
 			if b := s.own(name); b != nil && (b.holds == hFunc || b.holds == hClass || b.protect) {
+				return false
+			}
+			if s.selfName == name && !g.o.VarOverPatternParam {
+				// same finding: `(function g(a = 1){ var g })` is rejected by goja
 				return false
 			}
 			if s.patParam[name] && !g.o.VarOverPatternParam {
